@@ -11,10 +11,10 @@ from ..space import Const, Prod
 
 ID = "C16"
 LEVEL = "model_checking"
-RULE = ("BFS over histories of <= 4 (quick) / <= 5 (thorough) of add_class(t, prepend) / remove_class(t) "
+RULE = ("BFS over histories of <= 5 (quick) / <= 6 (thorough) of add_class(t, prepend) / remove_class(t) "
         "/ has_class(t) for t in {foo, foobar, foo-x, bar} from 7 initial class values (absent, odd "
-        "whitespace, duplicates, tab/newline separated, HTML()); BFS over add_style histories of <= 3 "
-        "(quick) / <= 4 over 3 valid and 3 invalid declarations from 2 initial values; css(): every "
+        "whitespace, duplicates, tab/newline separated, HTML()); BFS over add_style histories of <= 4 "
+        "(quick) / <= 5 over 3 valid and 3 invalid declarations from 2 initial values; css(): every "
         "ordered keyword selection of size <= 3 over 5 names x 11 values x 2 separators. Non-trivial = "
         "history with >= 2 operations of which >= 1 changes the state or must fail.")
 ASSUMPTIONS = [
@@ -246,8 +246,8 @@ def fn_css(case):
 
 
 def plan(tier):
-    d1 = 5 if tier == "quick" else 6
-    d2 = 4 if tier == "quick" else 5
+    d1 = 6 if tier == "quick" else 7
+    d2 = 5 if tier == "quick" else 6
     return [
         dict(kind="bfs", name="class-histories", init=[[]], ops=class_ops, step=class_step, depth=d1,
              note=f"initial value + <= {d1-1} class operations over tokens {TOKENS}"),
